@@ -445,7 +445,7 @@ def main_check(prop, modname, tier, seed):
         return 2
     if total.inconclusive:
         for n in total.inconclusive[:5]:
-            print(f"[{prop}] note (inconclusive sub-result, not a verdict): {n[:300]}", flush=True)
+            print(f"[{prop}] note (inconclusive sub-result, not a verdict): {n[:1200]}", flush=True)
         # harness-level failures make the run inconclusive; isolated non-reproducing timeouts do not
         hard = [n for n in total.inconclusive if "crashed in the monitor" in n or "driver" in n]
         if hard:
